@@ -83,6 +83,8 @@ func runLockDomain(c *Ctx, cfg, tname, rulePrefix string, minFns int) *lockDomai
 func checkC10(c *Ctx) {
 	c.Rule("C10-R1", "every access to a guarded field / Tty write / draw buffer / transformer state happens with the screen mutex held (report names the unlocked root or call site)")
 	c.Rule("C10-R3", "no method returns with the mutex held, none acquires it twice")
+	c.Rule("C10-R4", "memory handed from the input goroutine to the main loop over a channel is not written again by the sender (a fresh array per chunk): the lock does not cover it")
+	c.Expect("C10-R4", 1)
 	c.Expect("C10-R1", 150)
 	c.Expect("C10-R3", 60)
 	c.Assume("constructors and Init happen-before every other call on the screen")
@@ -91,6 +93,9 @@ func checkC10(c *Ctx) {
 	runLockDomain(c, "linux", "tScreen", "C10", 60)
 	runLockDomain(c, "linux", "simscreen", "C10", 40)
 	runLockDomain(c, "linux", "baseScreen", "C10", 10)
+	if p := c.P("linux"); p != nil && p.Tcell != nil {
+		checkChunkOwnership(c, p, "C10-R4")
+	}
 	if c.Tier == "thorough" {
 		for _, cfg := range []string{"darwin", "freebsd"} {
 			runLockDomain(c, cfg, "tScreen", "C10", 60)
